@@ -246,6 +246,7 @@ type Machine struct {
 type sliceAlias struct {
 	rn, bn string
 	off    int64
+	fresh  bool // the caller's buffer was allocated by the caller (its unwritten octets are zero)
 }
 
 // RetState is the symbolic state at a return.
@@ -666,7 +667,15 @@ func (m *Machine) execBlock(b *ssa.BasicBlock) {
 	m.mem[b] = state
 	if m.force != nil && len(b.Instrs) > 0 {
 		if iff, ok := b.Instrs[len(b.Instrs)-1].(*ssa.If); ok && b.Succs[0] != b.Succs[1] {
-			if c := m.val(iff.Cond); len(c) == 1 {
+			if c := m.val(iff.Cond); len(c) == 1 && (c[0].K == One || c[0].K == Zero) {
+				// a condition the case fixes (a comparison of a constant handed down by the caller's case): the
+				// other edge is dead
+				dead := b.Succs[0]
+				if c[0].K == One {
+					dead = b.Succs[1]
+				}
+				m.deadEdge[[2]*ssa.BasicBlock{b, dead}] = true
+			} else if len(c) == 1 {
 				bit, neg := c[0], false
 				if bit.K == Not {
 					bit, neg = Bit{K: In, Src: bit.Src, J: bit.J}, true
@@ -746,6 +755,9 @@ func (m *Machine) freshRoot(addr ssa.Value) bool {
 		switch root.(type) {
 		case *ssa.MakeSlice, *ssa.Alloc:
 			return true
+		}
+		if a, al := m.alias[root]; al && a.fresh {
+			return true // a buffer the caller allocated and handed down
 		}
 	case *ssa.Alloc:
 		_, named := m.names[x]
@@ -1412,7 +1424,17 @@ func (m *Machine) call(x *ssa.Call, state map[string]Vec) {
 					sub.bind[p] = v
 				} else if _, isSlice := p.Type().Underlying().(*types.Slice); isSlice {
 					if rn, bn, off, ok := m.sliceName(x.Call.Args[i]); ok {
-						sub.alias[p] = sliceAlias{rn, bn, off}
+						fresh := false
+						if root, _, _, okb := m.sliceBase(x.Call.Args[i]); okb {
+							switch root.(type) {
+							case *ssa.MakeSlice, *ssa.Alloc:
+								fresh = true
+							}
+							if a, al := m.alias[root]; al && a.fresh {
+								fresh = true
+							}
+						}
+						sub.alias[p] = sliceAlias{rn, bn, off, fresh}
 					}
 				} else if _, isPtr := p.Type().Underlying().(*types.Pointer); isPtr {
 					// pointer receiver: name its fields after the caller's view of the object
@@ -1442,6 +1464,7 @@ func (m *Machine) call(x *ssa.Call, state map[string]Vec) {
 			}
 			prefix := al.rn + "["
 			var rets []map[string]Vec
+			var retBlocks []*ssa.BasicBlock
 			for _, b := range callee.Blocks {
 				if len(b.Instrs) == 0 {
 					continue
@@ -1451,6 +1474,72 @@ func (m *Machine) call(x *ssa.Call, state map[string]Vec) {
 				}
 				if rs, ok := sub.mem[b]; ok {
 					rets = append(rets, rs)
+					retBlocks = append(retBlocks, b)
+				}
+			}
+			// two returns on the two sides of one test (an early `if !enabled { return }`): the memory after the call is
+			// the mux of the two return states over that test's condition, like the join of an if/else
+			if len(rets) == 2 {
+				d := retBlocks[0].Idom()
+				for d != nil && !d.Dominates(retBlocks[1]) {
+					d = d.Idom()
+				}
+				if d != nil && len(d.Instrs) > 0 {
+					if iff, ok := d.Instrs[len(d.Instrs)-1].(*ssa.If); ok {
+						side := func(r *ssa.BasicBlock) int {
+							for i, sc := range d.Succs {
+								if sc == r || (len(sc.Preds) == 1 && sc.Dominates(r)) {
+									return i
+								}
+							}
+							return -1
+						}
+						s0, s1 := side(retBlocks[0]), side(retBlocks[1])
+						if c := sub.val(iff.Cond); len(c) == 1 && s0 >= 0 && s1 >= 0 && s0 != s1 {
+							tState, fState := rets[0], rets[1]
+							if s0 == 1 {
+								tState, fState = rets[1], rets[0]
+							}
+							merged := map[string]Vec{}
+							keys := map[string]int{}
+							for k, v := range tState {
+								if strings.HasPrefix(k, prefix) {
+									keys[k] = len(v)
+								}
+							}
+							for k, v := range fState {
+								if strings.HasPrefix(k, prefix) {
+									keys[k] = len(v)
+								}
+							}
+							// a byte one side never wrote holds what it held before the call
+							before := func(k string, w int) Vec {
+								if old, had := state[k]; had && len(old) == w {
+									return old
+								}
+								if al.fresh {
+									return constVec(0, w)
+								}
+								return topVec(w)
+							}
+							for k, w := range keys {
+								tv, hasT := tState[k]
+								fv, hasF := fState[k]
+								if !hasT || len(tv) != w {
+									tv = before(k, w)
+								}
+								if !hasF || len(fv) != w {
+									fv = before(k, w)
+								}
+								r := make(Vec, w)
+								for j := 0; j < w; j++ {
+									r[j] = muxBit(c[0], tv[j], fv[j])
+								}
+								merged[k] = r
+							}
+							rets = []map[string]Vec{merged}
+						}
+					}
 				}
 			}
 			changed := map[string]Vec{}
